@@ -129,22 +129,17 @@ func (t *Queue[T]) Shutdown(optionalShutdownFlags ...ShutdownFlag) {
 	t.ctxCancel()
 
 	t.heapMutex.Lock()
-	switch queuedElementsCount := len(t.heap); queuedElementsCount {
-	// if the queue is empty ...
-	case 0:
-		// ... stop waiting for new elements
-		t.waitCond.Broadcast()
-
-	// if the queue is not empty ...
-	default:
-		// ... empty it if the corresponding flag was set
-		if t.shutdownFlags.HasBits(CancelPendingElements) {
-			for range queuedElementsCount {
-				heap.Pop(&t.heap)
-			}
+	// empty the queue if the corresponding flag was set
+	if t.shutdownFlags.HasBits(CancelPendingElements) {
+		for range len(t.heap) {
+			heap.Pop(&t.heap)
 		}
 	}
 	t.heapMutex.Unlock()
+
+	// wake up every goroutine that waits for new elements: it re-checks the queue and the shutdown state (also when the
+	// queue is not empty: a single Signal of a preceding Add wakes only one of several waiting goroutines)
+	t.waitCond.Broadcast()
 }
 
 // IsShutdown returns true if this queue was shutdown.
